@@ -197,18 +197,25 @@ Print Assumptions C18_native_as_is.
 
 (* registering any wrapping of f makes every wrapping of f native: the flag is found through
    any nesting of partials and bound methods; and every callable is such a wrapping *)
-Theorem C18_registered_found_through_wrappers : forall fl ws ws' f,
-  is_native (register_native fl (wrap ws (CFun f))) (wrap ws' (CFun f)) = true /\
-  adapt_func (register_native fl (wrap ws (CFun f))) (wrap ws' (CFun f)) = Same (wrap ws' (CFun f)).
+Theorem C18_registered_found_through_wrappers : forall fl ws ws' b,
+  is_native (register_native fl (wrap ws b)) (wrap ws' b) = true /\
+  adapt_func (register_native fl (wrap ws b)) (wrap ws' b) = Same (wrap ws' b).
 Proof.
-  intros fl ws ws' f. split; [apply registered_found_through_wrappers|].
+  intros fl ws ws' b. split; [apply registered_found_through_wrappers|].
   apply native_as_is, registered_found_through_wrappers.
 Qed.
 Print Assumptions C18_registered_found_through_wrappers.
 
-Theorem C18_every_callable_is_a_wrapping : forall c, exists ws f, c = wrap ws (CFun f).
+Theorem C18_every_callable_is_a_wrapping : forall c, exists ws b, c = wrap ws b /\ function_object b.
 Proof. exact callable_is_wrap. Qed.
 Print Assumptions C18_every_callable_is_a_wrapping.
+
+(* the closure that adapt_func / restore_func hands out for c is a function object of its own: it
+   does not inherit the native mark of c (restore_func of a native function is a DOMAIN function) *)
+Theorem C18_closure_not_native_by_inheritance : forall fl ws ws' id ad c,
+  fl id = false -> is_native (register_native fl (wrap ws c)) (wrap ws' (CWrap id ad c)) = Nat.eqb id (underlying c).
+Proof. exact closure_not_native_by_inheritance. Qed.
+Print Assumptions C18_closure_not_native_by_inheritance.
 
 (* calling the outcome of adapt_func: the native function itself / the converting wrapper *)
 Theorem C18_native_called_directly : forall (G M : Type) (cvA : G -> G) (cvR : G -> option M -> G) k den fl c,
